@@ -55,7 +55,7 @@ func polluting(trace string, chainS []*chain.Script) bool {
 		for _, o := range s.Ops {
 			switch o.K {
 			case chain.OpSet, chain.OpAddError, chain.OpAbort, chain.OpAbortThen, chain.OpAbortStatus, chain.OpAbortStatusMsg,
-				chain.OpWrapResp, chain.OpReqCtx, chain.OpSetParam, chain.OpWrite, chain.OpStatus, chain.OpPanic:
+				chain.OpWrapResp, chain.OpReqCtx, chain.OpSetParam, chain.OpWrite, chain.OpStatus, chain.OpPanic, chain.OpHijack:
 				return true
 			}
 		}
@@ -74,7 +74,7 @@ func prop(t *rapid.T) {
 	}
 	cfg := chain.ProgCfg{
 		MaxDepth: rapid.IntRange(0, 2).Draw(t, "maxDepth"), MaxMw: 2, MaxStmts: 4, Fallbacks: true, Dynamic: true,
-		Script: chain.ScriptCfg{Writes: true, Data: true, Pollute: true, Copies: true, Abort: 6, Panic: 10},
+		Script: chain.ScriptCfg{Writes: true, Data: true, Pollute: true, Copies: true, Hijack: true, Abort: 6, Panic: 10},
 	}
 	prog := chain.GenProgram(t, w, opts, cfg)
 	// usually a panic hook is installed; without one the panic leaves ServeHTTP (the harness recovers it, as net/http
